@@ -179,3 +179,7 @@ package tls
 //@ at cks assert [vector-size-checked-exactly-as-the-decoder-does] cks.val == uint64(il.res) && cks.val == size && cks.i == *info
 //@ at psize assert [size-prefix-is-the-encoded-size-of-the-elements] psize.v == size && cks.res == nil && len(scratch) == 8
 //@ at rec assert [struct-field-encoded-with-its-own-tag-info] rec.info == fieldInfo
+
+// RFC 5246 section 4.7 and 7.4.1.4.1.
+//@ layout DigitallySigned C04 C05: Algorithm struct SignatureAndHashAlgorithm; Signature opaque<0..65535>
+//@ layout SignatureAndHashAlgorithm C04 C05: Hash enum(1); Signature enum(1)
